@@ -91,6 +91,9 @@ func WorkerMain(propID, tier string) int {
 		w.Flush()
 		t0 := time.Now()
 		ro := p.Run(seed, tier, nil)
+		if os.Getenv("OLSIM_TIMING") != "" {
+			fmt.Fprintf(os.Stderr, "TIMING seed=%d %v\n", seed, core.Timing)
+		}
 		b, _ := json.Marshal(report(ro, seed, wantTrace, t0))
 		w.Write(b)
 		w.WriteByte('\n')
